@@ -23,6 +23,14 @@ func makeTlsConfig(cfg *TlsConfig, requireCert bool) (*tls.Config, error) {
 			return nil, fmt.Errorf("failed to load ca, %w", err)
 		}
 		c.RootCAs = pool
+		if cfg.VerifyClientCert {
+			// Server side: only clients presenting a certificate that chains
+			// to the configured ca are accepted.
+			c.ClientCAs = pool
+			c.ClientAuth = tls.RequireAndVerifyClientCert
+		}
+	} else if cfg.VerifyClientCert {
+		return nil, errors.New("verify_client_cert requires a ca")
 	}
 
 	if cfg.DebugUseTempCert {
